@@ -80,8 +80,8 @@ class TlcResult:
         self.violated += re.findall(r"Error: Action property (\S+) is violated", out)
         if "Temporal properties were violated" in out:
             self.violated.append("temporal")
-        self.rejected = re.findall(r'<<"REJECTED", (\d+), (.*)>>', out)
-        self.kf = re.findall(r'<<"KF", "([^"]*)", (\d+)>>', out)
+        self.rejected = re.findall(r'<<\s*"REJECTED",\s*(\d+),\s*(.*?)>>\s+FALSE', out, re.S)
+        self.kf = re.findall(r'<<\s*"KF",\s*"([^"]*)",\s*(\d+)\s*>>', out, re.S)
         self.tool_error = ("TLC threw an unexpected exception" in out or "Parsing or semantic analysis failed" in out
                            or "java.lang.OutOfMemoryError" in out or "StackOverflowError" in out
                            or ("Error:" in out and not self.violated and not self.rejected
